@@ -537,8 +537,16 @@ def eval_bcast(rp):
     return None, None, coq, None, int(np.prod(lead)) > 1
 
 
+_BC = {}
+
+
 def _case_bcast(rng, tier, name):
     lead = lead_shape(rng, cap={'cbmm': 4}.get(name, 30))
+    _BC[name] = _BC.get(name, 0) + 1
+    inner = _BC[name] % 2 == 1
+    if inner:
+        # every model, every run: a singleton axis that FOLLOWS a non-singleton one - (A, 1, K, N) for a stack (A, B)
+        lead = (2, 2) if name == 'cbmm' else (int(rng.integers(2, 4)), int(rng.integers(2, 4)))
     K = 2 if name == 'cbmm' else int(rng.integers(2, 4))
     D = int(rng.integers(2, 4)) if name == 'cbmm' else int(rng.integers(2, 5))
     N = int(rng.integers(6, 9)) if name == 'cbmm' else int(rng.integers(3 * K + 2 * D, 3 * K + 2 * D + 8))
@@ -547,6 +555,8 @@ def _case_bcast(rng, tier, name):
     ilead = tuple(1 if rng.random() < 0.7 else s for s in lead)
     if ilead == lead:
         ilead = (1,) * len(lead)
+    if inner:
+        ilead = (lead[0], 1)
     init = mm.make_init(rng, K, N, ilead)
     opts = mix_options(rng, name, K, N, lead)
     opts.pop('source_activity_mask', None)
